@@ -146,7 +146,8 @@ def run(ctx):
         ctx.broke("correspondence", "Prox/SolverKernels vs drv_solve ALM records (%s)" % kind,
                   json.dumps({"first_disagreeing_case": terms[failing[0]], "request": rq.describe(), "n_disagreements": len(failing)}))
     # whole-loop tie for PANOC: verified model (Panoc.v) vs the real solver on whole runs
-    from vf.props import PANOC
+    from vf.props import PANOC, PANTR
     PANOC.attach(ctx)
+    PANTR.attach(ctx)
     from vf.props import ZEROFPR
     ZEROFPR.attach(ctx)
